@@ -43,7 +43,8 @@ def plan(tier):
 
 def floors(tier):
     return {"nontrivial": 8, "counter:gridded_configurations": 2, "counter:raw_configurations": 6, "counter:cells_judged": 80, "counter:runs": 200000, "counter:events_simulated": 1000000,
-            "class:first-step": 2, "class:chain": 2, "class:immigration-death": 2, "class:sir-final-size": 2}
+            "class:first-step": 2, "class:chain": 2, "class:immigration-death": 2, "class:sir-final-size": 2,
+            "class:int-number-types": 4, "class:float-number-types": 4}
 
 
 def region(n, p, alpha=ALPHA_CELL):
@@ -98,10 +99,16 @@ def run_case(rng, idx, tier, lane, ctx):
     counters = {"cells_judged": 0, "runs": 0, "events_simulated": 0}
     wit = []
     cells = []   # (label, n, p, observed)
+    # number types as a user may write them: in half of the configurations every parameter is a whole number given as a Python int and
+    # the initial state is an integer-dtype array (the law does not depend on the number type the rates are computed in)
+    ints = (idx // (2 * len(KINDS))) % 2 == 1
+
+    def rate_value(lo, hi):
+        return rng.randint(max(1, int(math.ceil(lo))), max(1, int(hi))) if ints else round(rng.uniform(lo, hi), 3)
     if kind == "first-step":
         while True:
             spec = GE.gen_events(rng, limits="default", time_dep=False, min_events=2)
-            theta = GE.param_values(rng, spec)
+            theta = [rng.randint(1, 3) for _ in spec["params"]] if ints else GE.param_values(rng, spec)
             x0 = GE.initial_state(rng, spec, lo=1, hi=12, boundary_prob=0.0)
             ref, V = S.numeric_V(spec, theta)
             tot, rates = S.total_rate(ref, x0, 0.0, theta)
@@ -112,7 +119,7 @@ def run_case(rng, idx, tier, lane, ctx):
     elif kind == "chain":
         stages = rng.choice([3, 4])
         names = ["A", "B", "C", "D"][:stages]
-        rates_c = [round(rng.uniform(0.3, 3.0), 3) for _ in range(stages - 1)]
+        rates_c = [rate_value(0.3, 3.0) for _ in range(stages - 1)]
         N = rng.randint(3, 12)
         horizon = round(rng.uniform(0.3, 2.0), 3)
         spec = {"states": names, "state_decl": "list", "params": ["r%d" % i for i in range(stages - 1)], "param_decl": "list", "derived": [],
@@ -122,7 +129,7 @@ def run_case(rng, idx, tier, lane, ctx):
         x0 = [N] + [0] * (stages - 1)
         cfg = {"kind": kind, "stages": stages, "rates": rates_c, "N": N, "T": horizon}
     elif kind == "immigration-death":
-        lam, mu = round(rng.uniform(0.5, 3.0), 3), round(rng.uniform(0.3, 2.0), 3)
+        lam, mu = rate_value(0.5, 3.0), rate_value(0.3, 2.0)
         horizon = round(rng.uniform(0.5, 3.0), 3)
         spec = {"states": ["X"], "state_decl": "list", "params": ["lam", "mu"], "param_decl": "list", "derived": [],
                 "events": [{"rate": "lam", "trans": [["B", None, "X", "1"]]}, {"rate": "mu*X", "trans": [["D", "X", None, "1"]]}],
@@ -133,16 +140,19 @@ def run_case(rng, idx, tier, lane, ctx):
     else:
         N = rng.randint(5, 12)
         i0 = rng.randint(1, 2)
-        beta, gamma = round(rng.uniform(0.8, 3.0), 3), round(rng.uniform(0.4, 1.5), 3)
+        beta, gamma = rate_value(0.8, 3.0), rate_value(0.4, 1.5)
         spec = {"states": ["S", "I", "R"], "state_decl": "list", "params": ["beta", "gamma", "N"], "param_decl": "list", "derived": [],
                 "events": [{"rate": "beta*S*I/N", "trans": [["T", "S", "I", "1"]]}, {"rate": "gamma*I", "trans": [["T", "I", "R", "1"]]}],
                 "odes": [], "limits": [[0, None]] * 3}
-        theta = [beta, gamma, float(N)]
+        theta = [beta, gamma, N if ints else float(N)]
         x0 = [N - i0, i0, 0]
         horizon = 1e9
         cfg = {"kind": kind, "N": N, "i0": i0, "beta": beta, "gamma": gamma}
     cfg["runs"] = n_runs
     cfg["seed"] = seed
+    cfg["number_types"] = "int parameters, integer-dtype x0 array" if ints else "float parameters, list of int x0"
+    if ints:
+        x0 = np.array(x0, dtype=int)
     # the law is a property of what the user reads: half of the non-first-step configurations read the state at T from the
     # gridded form of the call (t = [0, T/2, T] resp. [0, far past extinction]) instead of the raw path
     gridded = kind != "first-step" and (idx // len(KINDS)) % 2 == 1
@@ -225,7 +235,7 @@ def run_case(rng, idx, tier, lane, ctx):
     cfg["cells"] = table[:14]
     cfg["min_detectable_deviation"] = round(half, 5)
     res = {"status": "violated" if wit else "held", "nontrivial": big >= 3, "key": canon_hash([kind, cfg.get("seed"), theta, x0]),
-           "classes": [kind], "counters": counters, "sample": cfg, "maxima": {"max_region_halfwidth": half}}
+           "classes": [kind, "int-number-types" if ints else "float-number-types"], "counters": counters, "sample": cfg, "maxima": {"max_region_halfwidth": half}}
     if wit:
         res["witnesses"] = wit[:5]
     return res
